@@ -1,5 +1,5 @@
 CONSTANTS
-  Clauses = {"Returns", "EventsBracketed"}
+  Clauses = {"Returns", "EventsBracketed", "AstReturns"}
 INIT TInit
 NEXT TNext
 CHECK_DEADLOCK FALSE
